@@ -187,7 +187,40 @@ def D14():
     print("D14", "DEFECT" if got != (u.pw_gid,) * 3 else "OK", "resgid with initgroups =", got)
 
 
-ALL = {"D14": D14, "D1": D1, "D2": D2, "D3": D3, "D4": D4, "D5": D5_D6, "D6": D5_D6, "D7": D7, "D8": D8, "D9": D9, "D10": D10, "D11": D11, "D12": D12, "D13": D13}
+def D15():
+    resp, s = _resp()
+    resp.start_response("200 OK", [("X-First", "1"), ("Content-Length", "5")])
+    try:
+        raise ValueError("boom")
+    except ValueError:
+        resp.start_response("500 Internal Server Error", [("X-Second", "2")], sys.exc_info())
+    resp.write(b"error page body")
+    resp.close()
+    print("D15", "DEFECT" if (b"X-First" in s.out or b"error page body" not in s.out) else "OK", s.out[:40], b"...", s.out[-30:])
+
+
+def D16():
+    from gunicorn.workers import sync
+    w = sync.SyncWorker.__new__(sync.SyncWorker)
+    w.alive = True
+    w.PIPE = [99, 98]
+    w.notify = lambda: None
+    w.is_parent_alive = lambda: False
+    l1, l2 = object(), object()
+    w.sockets = [l1, l2]
+    calls = []
+
+    def accept(listener):
+        calls.append(listener)
+        w.alive = False          # what handle_request does when nr >= max_requests
+
+    w.accept = accept
+    w.wait = lambda timeout: [l1, l2]
+    w.run_for_multiple(1.0)
+    print("D16", "DEFECT" if len(calls) > 1 else "OK", "accepts after the limit was reached:", len(calls) - 1)
+
+
+ALL = {"D14": D14, "D15": D15, "D16": D16, "D1": D1, "D2": D2, "D3": D3, "D4": D4, "D5": D5_D6, "D6": D5_D6, "D7": D7, "D8": D8, "D9": D9, "D10": D10, "D11": D11, "D12": D12, "D13": D13}
 
 if __name__ == "__main__":
     want = sys.argv[1:] or ["D1", "D2", "D3", "D4", "D5", "D7", "D8", "D9", "D10", "D11", "D12", "D13"]
